@@ -22,9 +22,17 @@ COMMON_ASSUME = [
     "exploration: absence of a violation in the explored cases is not a proof",
 ]
 
+HIST_RULES = {}
+
 PROPS = {
-    "C01": prog("hist", HIST3, q(5, 3000, 120), t(5, 40000, 200, 120),
-                "history with >=8 successful allocations, >=1 release between two allocations, and "
-                "one of: upstream growth / array and node live together / >=2 buckets used / a move "
-                "with >=3 live allocations.", COMMON_ASSUME),
+    "C01": prog("hist", HIST3, q(4, 3000, 120), t(5, 40000, 200, 120), assumptions=COMMON_ASSUME),
+    "C02": prog("hist", HIST3, q(4, 3000, 120), t(5, 40000, 200, 120), assumptions=COMMON_ASSUME),
+    "C03": prog("hist", HIST3, q(4, 3000, 100), t(5, 40000, 160, 120), assumptions=COMMON_ASSUME),
+    "C04": prog("hist", HIST3, q(4, 3000, 120), t(5, 40000, 200, 120), assumptions=COMMON_ASSUME),
+    "C05": prog("hist", HIST3, q(4, 3000, 120), t(5, 40000, 200, 120), assumptions=COMMON_ASSUME),
+    "C06": prog("hist", HIST3, q(4, 3000, 120), t(5, 40000, 200, 120), assumptions=COMMON_ASSUME),
+    "C07": prog("hist", HIST3, q(4, 3000, 120), t(5, 40000, 200, 120), assumptions=COMMON_ASSUME),
+    "C12": prog("hist", HIST3, q(4, 3000, 100), t(5, 40000, 160, 120), assumptions=COMMON_ASSUME),
+    "C15": prog("hist", ["base", "dbg"], q(5, 3000, 100), t(8, 40000, 120, 120), assumptions=COMMON_ASSUME),
+    "C18": prog("hist", HIST3, q(4, 3000, 100), t(5, 40000, 160, 120), assumptions=COMMON_ASSUME),
 }
